@@ -243,3 +243,54 @@ func publishLocked(r *Run, fns []*ssa.Function, rule string) {
 	}
 	r.Floor(rule, n, 1, "publications into the fid table")
 }
+
+// lockPairingInto reports, under the given rule name, the lock-pairing violations of the session functions (a fid
+// lock still held at a return, an unlock of a lock not held, a nested blocking acquisition): a fid whose lock leaks
+// can never be used, unbound or released again, and Stop blocks on it for ever.
+func lockPairingInto(r *Run, ts *TS, fns []*ssa.Function, rule string) {
+	nRet := 0
+	for _, fn := range fns {
+		sum := ts.summary(fn)
+		if sum.returnsLocked {
+			continue
+		}
+		leak := map[string]token.Pos{}
+		for _, ret := range ts.rets[fn] {
+			nRet++
+			for k := range ret.held {
+				isEntry := false
+				for i := range sum.requiresHeld {
+					if i < len(fn.Params) && strings.HasSuffix(k, "sym:p:"+fn.Params[i].Name()) {
+						isEntry = true
+					}
+				}
+				if !isEntry {
+					leak[k] = ret.pos
+				}
+			}
+		}
+		if len(leak) > 0 {
+			ks := []string{}
+			var pos token.Pos
+			for k, ps := range leak {
+				ks = append(ks, shortTok(k))
+				pos = ps
+			}
+			sort.Strings(ks)
+			r.Bad(rule, fnName(fn)+": no fid lock held at any return", pos, "a path returns with the lock of "+strings.Join(ks, ", ")+" still held: the fid can never be used, clunked or reused again, and Stop blocks on it for ever")
+		}
+	}
+	keys := []string{}
+	for k := range ts.viol {
+		keys = append(keys, k)
+	}
+	sort.Strings(keys)
+	for _, k := range keys {
+		v := ts.viol[k]
+		if strings.HasPrefix(v.rule, "lock-pairing/") || strings.HasPrefix(v.rule, "deadlock/") {
+			r.Bad(rule, v.key+" ["+v.rule+"]", v.pos, v.reason)
+		}
+	}
+	r.Ok(rule, fmt.Sprintf("session functions: %d return states examined for leaked fid locks", nRet), token.NoPos)
+	r.Floor(rule, nRet, 30, "return states over sfilesys.go")
+}
